@@ -4,6 +4,7 @@
 package c16
 
 import (
+	"encoding/pem"
 	"context"
 	"crypto/tls"
 	"fmt"
@@ -53,6 +54,37 @@ var mats = pki.Pool(3)
 var junkEndpoints = []string{"", "https://%zz", "http://", "ftp://x", "http://[::1", "https://a b", "HTTP://x", "http://x:99999", "https://host\n", "http://127.0.0.1:1/path?q=1", "https://", "http://%", "http://127.0.0.1:2", "https://127.0.0.1:2"}
 var junkPEM = [][]byte{nil, []byte("garbage"), []byte("-----BEGIN CERTIFICATE-----\nAAAA\n-----END CERTIFICATE-----\n"), mats[0].CertPEM, mats[1].CertPEM, mats[0].KeyPEM, mats[1].KeyPEM, mats[0].CAPEM}
 var int32s = []int32{0, 1, -1, 2, 5, 100, -100, 2147483647, -2147483648}
+
+// pemBlocks are concatenated into bundles: good and broken blocks mixed in any order (a loader that skips what it
+// cannot parse and one that fails on the first bad block disagree exactly on such bundles)
+var pemBlocks = [][]byte{
+	mats[0].CertPEM, mats[1].CertPEM, mats[0].CAPEM, mats[1].CAPEM, mats[0].KeyPEM,
+	[]byte("-----BEGIN CERTIFICATE-----\nAAAA\n-----END CERTIFICATE-----\n"),
+	truncatedCert(mats[1].CAPEM),
+	[]byte("not pem at all\n"),
+	[]byte("-----BEGIN X509 CRL-----\nAAAA\n-----END X509 CRL-----\n"),
+}
+
+// truncatedCert re-encodes the first half of the DER bytes of a certificate as a CERTIFICATE block.
+func truncatedCert(pemBytes []byte) []byte {
+	b, _ := pem.Decode(pemBytes)
+	if b == nil {
+		return []byte("-----BEGIN CERTIFICATE-----\nAAAA\n-----END CERTIFICATE-----\n")
+	}
+	return pem.EncodeToMemory(&pem.Block{Type: "CERTIFICATE", Bytes: b.Bytes[:len(b.Bytes)/2]})
+}
+
+// genPEM draws one of the fixed blobs or a bundle of 2-3 blocks.
+func genPEM(t *rapid.T, label string) []byte {
+	if rapid.IntRange(0, 2).Draw(t, label+".bundle") != 0 {
+		return rapid.SampledFrom(junkPEM).Draw(t, label)
+	}
+	var out []byte
+	for i, n := 0, rapid.IntRange(2, 3).Draw(t, label+".blocks"); i < n; i++ {
+		out = append(out, rapid.SampledFrom(pemBlocks).Draw(t, fmt.Sprintf("%s.block[%d]", label, i))...)
+	}
+	return out
+}
 
 func genI32(t *rapid.T, label string) int32 { return rapid.SampledFrom(int32s).Draw(t, label) }
 
@@ -126,7 +158,17 @@ func mutate(t *rapid.T, c *proxyv1alpha1.UpstreamCluster) []string {
 			edits = append(edits, fmt.Sprintf("client qps=%d burst=%d div=%d", c.Spec.ClientConfig.QPS, c.Spec.ClientConfig.Burst, c.Spec.ClientConfig.QPSDivisor))
 		case 28:
 			ss := &c.Spec.SecureServing
-			switch rapid.IntRange(0, 3).Draw(t, l+".what") {
+			switch rapid.IntRange(0, 5).Draw(t, l+".what") {
+			case 4:
+				ss.ClientCAData = genPEM(t, l+".caBundle")
+			case 5:
+				// a good CA with a broken block before or after it
+				bad := rapid.SampledFrom(pemBlocks[5:]).Draw(t, l+".badBlock")
+				if rapid.Bool().Draw(t, l+".badFirst") {
+					ss.ClientCAData = append(append([]byte{}, bad...), mats[0].CAPEM...)
+				} else {
+					ss.ClientCAData = append(append([]byte{}, mats[0].CAPEM...), bad...)
+				}
 			case 0:
 				ss.CertData, ss.KeyData = mats[0].CertPEM, nil // certificate without key
 			case 1:
@@ -218,9 +260,9 @@ func mutate(t *rapid.T, c *proxyv1alpha1.UpstreamCluster) []string {
 		case 12, 13:
 			cc := &c.Spec.ClientConfig
 			cc.Insecure = rapid.Bool().Draw(t, l+".insecure")
-			cc.CAData = rapid.SampledFrom(junkPEM).Draw(t, l+".ca")
-			cc.CertData = rapid.SampledFrom(junkPEM).Draw(t, l+".cert")
-			cc.KeyData = rapid.SampledFrom(junkPEM).Draw(t, l+".key")
+			cc.CAData = genPEM(t, l+".ca")
+			cc.CertData = genPEM(t, l+".cert")
+			cc.KeyData = genPEM(t, l+".key")
 			if rapid.Bool().Draw(t, l+".token") {
 				cc.BearerToken = []byte("tok")
 			} else {
@@ -242,9 +284,9 @@ func mutate(t *rapid.T, c *proxyv1alpha1.UpstreamCluster) []string {
 			edits = append(edits, "all endpoints https")
 		case 15, 16:
 			ss := &c.Spec.SecureServing
-			ss.CertData = rapid.SampledFrom(junkPEM).Draw(t, l+".cert")
-			ss.KeyData = rapid.SampledFrom(junkPEM).Draw(t, l+".key")
-			ss.ClientCAData = rapid.SampledFrom(junkPEM).Draw(t, l+".ca")
+			ss.CertData = genPEM(t, l+".cert")
+			ss.KeyData = genPEM(t, l+".key")
+			ss.ClientCAData = genPEM(t, l+".ca")
 			edits = append(edits, fmt.Sprintf("secureServing{cert=%d key=%d ca=%d}", len(ss.CertData), len(ss.KeyData), len(ss.ClientCAData)))
 		case 17:
 			c.Name = rapid.SampledFrom([]string{"", "UPPER", "a_b", strings.Repeat("x", 300), "ok-name", "-bad"}).Draw(t, l+".name")
@@ -539,7 +581,7 @@ var probes = func() []gen.Request {
 }()
 
 func TestPropValidationTotalAndSound(t *testing.T) {
-	sub := stats.NewSub("near-valid-objects", "rapid: a valid UpstreamCluster (shared generator: servers, policies, schemas incl. global members, serving TLS material, annotations) with 0-4 random field edits (junk / unparseable / mixed-scheme endpoints, any combination of the five flow-control members with values from {0,1,-1,2,5,100,-100,MaxInt32,MinInt32}, unknown subset endpoints / schema names, empty rules, junk strategies and log modes, client config combinations with garbage / mismatched PEM, https switch, invalid names, junk feature-gate annotations, global strategy without global member, schema with only a global member); oracle: validation never panics; accepted => every apply stage succeeds; accepted => the must-reject predicate is empty; non-trivial = an edited object (accepted or rejected); distinct by FNV-64 of the object")
+	sub := stats.NewSub("near-valid-objects", "rapid: a valid UpstreamCluster (shared generator: servers, policies, schemas incl. global members, serving TLS material, annotations) with 0-4 random field edits (junk / unparseable / mixed-scheme endpoints, any combination of the five flow-control members with values from {0,1,-1,2,5,100,-100,MaxInt32,MinInt32}, unknown subset endpoints / schema names, empty rules, junk strategies and log modes, client config and serving TLS material with garbage / mismatched PEM and bundles mixing good, unparseable and truncated blocks, https switch, invalid names, junk feature-gate annotations, global strategy without global member, schema with only a global member); oracle: validation never panics; accepted => every apply stage succeeds; accepted => the must-reject predicate is empty; non-trivial = an edited object (accepted or rejected); distinct by FNV-64 of the object")
 	remote.VerifSetWaitAcquireTimeout(1e6)
 	var prevAccepted *proxyv1alpha1.UpstreamCluster
 	stats.Check(t, stats.N(8000, 40000), func(t *rapid.T) {
